@@ -18,7 +18,7 @@ Require Import Fggs.Model.Axis Fggs.Model.PTensor Fggs.Model.AxisCheck Fggs.Mode
 Require Import Fggs.Proofs.Axis_sem Fggs.Proofs.PTensor_dense.
 Require Import Fggs.Proofs.Einsum_dense Fggs.Proofs.Einsum_support Fggs.Proofs.Einsum_form Fggs.Proofs.Einsum_views Fggs.Proofs.Einsum_reduce.
 Require Import Fggs.Proofs.Einsum_project Fggs.Proofs.Einsum_reindex Fggs.Proofs.Einsum_top.
-Require Import Fggs.Model.Trop Fggs.Model.XVal Fggs.Proofs.Einsum_argmax Fggs.Proofs.Einsum_vit Fggs.Proofs.Einsum_examples Fggs.Proofs.Einsum_oracle.
+Require Import Fggs.Model.Trop Fggs.Model.XVal Fggs.Proofs.Einsum_argmax Fggs.Proofs.Einsum_vit Fggs.Proofs.Einsum_examples Fggs.Proofs.Einsum_oracle Fggs.Proofs.Einsum_orig.
 Local Open Scope nat_scope.
 
 (** * (a) the dense specification *)
@@ -291,3 +291,30 @@ Theorem C07_oracle_argmax_ok_sound : forall (R : Type) (o : sr_ops R) (veqb : R 
   veqb (einsum_term o ops inputs (combine output oidx ++ combine (summed_labels inputs output) vp)) value = true.
 Proof. exact @argmax_ok_sound. Qed.
 Print Assumptions C07_oracle_argmax_ok_sound.
+
+(** * the result against the specification on the GIVEN operands *)
+(** the specification reads the operands only inside their shapes *)
+Theorem C07_dense_spec_ext_bounds : forall (R : Type) (o : sr_ops R) (ops ops' : list (operand (R:=R))) inputs output oidx,
+  map fst ops = map fst ops' ->
+  Forall2 (fun op inp => fst op = map (lval (label_sizes (map fst ops) inputs)) inp) ops inputs ->
+  Forall2 lt oidx (map (lval (label_sizes (map fst ops) inputs)) output) ->
+  (forall j idx, j < length ops -> Forall2 lt idx (fst (nth j ops ([], fun _ => Semiring.zero o))) ->
+     snd (nth j ops ([], fun _ => Semiring.zero o)) idx = snd (nth j ops' ([], fun _ => Semiring.zero o)) idx) ->
+  einsum_dense o ops inputs output oidx = einsum_dense o ops' inputs output oidx.
+Proof. exact @einsum_dense_ext_bounds. Qed.
+Print Assumptions C07_dense_spec_ext_bounds.
+
+(** all exits, the operands as given (any defaults, shared axes): [cert_pre] = what [default_to(zero)]
+    and [freshen] produced denotes the given operands inside their shapes (decidable, evaluated per case) *)
+Theorem C07_patterned_eq_dense_given_operands_partial : forall (R : Type) (o : sr_ops R) (veqb : R -> R -> bool),
+  (forall a b, veqb a b = true -> a = b) -> sr_ring o ->
+  forall genabled next (ts0 : list (stensor (R:=R))) inputs output r,
+  einsum_run o veqb genabled next ts0 inputs output = Ok r ->
+  Forall (st_ok (R:=R)) (er_ts r) ->
+  cert_pre veqb r (map st_pt ts0) = true -> cert_operands o veqb r inputs output = true ->
+  (er_failed r || er_zero_axis r = false -> cert_subst r = true /\ cert_views r = true) ->
+  cert_complete r inputs = true ->
+  forall oidx, Forall2 lt oidx (einsum_shape (map (dn (R:=R)) (operands_of r)) inputs output) ->
+  denote R (er_raw r) oidx = einsum_dense o (map (dn (R:=R)) (map st_pt ts0)) inputs output oidx.
+Proof. exact @einsum_correct_original. Qed.
+Print Assumptions C07_patterned_eq_dense_given_operands_partial.
